@@ -998,7 +998,11 @@ func generate(tier string, seed uint64) []job {
 	return g.jobs
 }
 
+var kindTime = map[string]time.Duration{}
+
 func runJob(idx int, j job) {
+	t0 := time.Now()
+	defer func() { kindTime[j.kind] += time.Since(t0) }()
 	curMu.Lock()
 	curJob, curDone = j, false
 	curMu.Unlock()
